@@ -170,6 +170,8 @@ def gen_libobl(name):
 
 def gen_uqobl(name):
     idn = ident(name)
+    if not has_uq(name):
+        return HEADER + '-- this library carries no uncertainty data: nothing to prove\nnamespace PGA.Gen.UqObl_%s\nend PGA.Gen.UqObl_%s\n' % (idn, idn)
     o = io.StringIO()
     o.write(HEADER)
     o.write('import PGA.Gen.Lib_%s\nimport PGA.Gen.Uq_%s\nimport PGA.Proofs.Psd\n' % (idn, idn))
